@@ -10,7 +10,10 @@ pub fn div<const B: Word>(&self, lhs: &Repr<B>, rhs: &Repr<B>) -> Rounded<FBig<R
         // digits(rhs) + p digits: a double rounding outside the property's domain)
         ndigits(B as int, lhs.significand.v()) <= self.precision,
         // machine ranges (overflow of usize/isize is outside this contract)
-        self.precision < 0x1000_0000_0000_0000, ndigits(B as int, rhs.significand.v()) < 0x1000_0000_0000_0000,
+        // resource limit: exponent overflow is a documented panic (C16), not modelled: precision and digit counts below
+        // 2^56 keep the digit shifts (<= digits + precision) within `pos_room` (bit position `pos * log2(B)` in usize)
+        // and leave `Repr::new` room for the exponent
+        self.precision < 0x100_0000_0000_0000, ndigits(B as int, rhs.significand.v()) < 0x100_0000_0000_0000,
         -0x1000_0000_0000_0000 < lhs.exponent < 0x1000_0000_0000_0000, -0x1000_0000_0000_0000 < rhs.exponent < 0x1000_0000_0000_0000,
     ensures
         div_post(R::md(), B as int, self.precision as nat, lhs.significand.v(), rhs.significand.v(), lhs.exponent - rhs.exponent, map_repr(ret)),
